@@ -296,6 +296,12 @@ class Runner:
             h_before = self.m.height
             with self.ctx.guard((self.mode, op["op"], "exception"), self.case):
                 getattr(self, "op_" + op["op"])(op)
+            if self.spec.get("underdeclared") and not self.dead:
+                # keep the coordinates meaningful: the grid of such a table is re-read from the independent expansion
+                try:
+                    self._resync_model()
+                except Exception:
+                    pass
             self.first_row_added = h_before == 0 and self.m.height > 0 and op["op"] in ROW_ADDERS
             self.check()
         except Abandon:
@@ -661,6 +667,8 @@ class Runner:
                 Grid.row_set_cells(mrow, [(cellv(c), c.get("r", 1)) for c in e["cells"]], x)
             got = row.get_values()
             want = [read_value(c[0]) for c in mrow]
+            if self.spec.get("underdeclared"):
+                continue  # no reliable grid for a table whose rows outgrow its column declarations: C02 judges live vs fresh only
             self.ctx.check(len(got) == len(want) and all(same_value(a, b) for a, b in zip(got, want)) and row.width == len(mrow),
                            (self.mode, "Row." + k, "detached-row-values"),
                            f"after Row.{k} at x={x}: row reads {got!r} (width {row.width}), grid row {want!r}", self.case)
@@ -1225,10 +1233,12 @@ def make_machine(ctx, mode, corpus_specs=(), warm_weight=1):
                 if rr is None or rr.dead or not rr.spec.get("underdeclared"):
                     return
                 declared = rr.t.width
-                if rr.m.width <= declared:
+                widest = max([len(row_) for row_ in rr.m.rows] + [0])
+                if widest <= declared:
                     return
+                x_ = declared + gx % (widest - declared)
                 self.go({"op": "warm", "k": wk, "kx": kx_, "ky": ky})
-                self.go({"op": "insert_column", "x": declared + gx % (rr.m.width - declared), "r": r, "cs": cs, "form": "t"})
+                self.go({"op": "insert_column", "x": x_, "r": r, "cs": cs, "form": "t"})
 
         @rule(really=st.integers(0, 5))
         def clear(self, really):
